@@ -31,6 +31,9 @@
 (*              final  the returned q_values, their exact ranks, the support of the      *)
 (*                     returned policy and the exact-side flags (see JudgeExact)         *)
 (*              cut    the run did not return (only the steps before are judged)         *)
+(*            The final event may also carry er (ern = 1): the episode_rewards reported  *)
+(*            by the default EpisodeRewardEventListener for the same configuration; it    *)
+(*            must equal the per-episode totals of the MDP's rewards along this history.  *)
 (*            The trace actions replay the bookkeeping of (R) from the logged arguments, *)
 (*            judge every clause of the property in integer arithmetic and accumulate    *)
 (*            total verdicts (fail = property clauses, drift = implementation shaped);   *)
@@ -69,8 +72,10 @@ VARIABLES iid,    \* index of the instance / trace in the batch
           l,      \* trace mode: position in the event list
           obs,    \* trace mode: last logged q_matrix (integers, unit 1/SC); <<>> before the first
           fail,   \* trace mode: property clauses that failed, <<tag, position>>
-          drift   \* trace mode: implementation-shaped mismatches, <<kind, tag, position>>
-vars == <<iid, pc, cur, cnt, tcnt, rsum, Q, l, obs, fail, drift>>
+          drift,  \* trace mode: implementation-shaped mismatches, <<kind, tag, position>>
+          epr,    \* trace mode: reward totals of the finished episodes (MDP rewards of the steps, unit 1/1024)
+          epcur   \* trace mode: reward total of the running episode
+vars == <<iid, pc, cur, cnt, tcnt, rsum, Q, l, obs, fail, drift, epr, epcur>>
 
 M == Batch[iid]
 
@@ -200,13 +205,14 @@ Init ==
   /\ Q = Optimistic(Batch[iid])
   /\ l = (IF Mode = "mc" THEN 0 ELSE 1)
   /\ obs = <<>> /\ fail = {} /\ drift = {}
+  /\ epr = <<>> /\ epcur = 0
 
 \* s = mdp.initial_state_dist().sample(); an absorbing start ends the episode at once
 StartEpisode ==
   /\ pc = "start"
   /\ \E s0 \in InitSupp(M) :
         IF M.abs[s0] = 1 THEN cur' = 0 /\ pc' = "start" ELSE cur' = s0 /\ pc' = "act"
-  /\ UNCHANGED <<iid, cnt, tcnt, rsum, Q, l, obs, fail, drift>>
+  /\ UNCHANGED <<iid, cnt, tcnt, rsum, Q, l, obs, fail, drift, epr, epcur>>
 
 \* one pass of the while loop: _act, sample ns, reward, _observe (+ solve when the count reaches thr)
 Step ==
@@ -218,7 +224,7 @@ Step ==
        IN /\ cnt' = c2 /\ tcnt' = t2 /\ rsum' = r2
           /\ Q' = (IF Fires(M, cnt, cur, a) THEN SolveExact(M, c2, t2) ELSE Q)
           /\ IF M.abs[ns] = 1 THEN cur' = 0 /\ pc' = "start" ELSE cur' = ns /\ pc' = "act"
-  /\ UNCHANGED <<iid, l, obs, fail, drift>>
+  /\ UNCHANGED <<iid, l, obs, fail, drift, epr, epcur>>
 
 \* ------------------------------------------------------------------ machine: trace validation mode
 Ev == M.ev[l]
@@ -250,10 +256,11 @@ TrStep ==
                THEN JudgeQ(M, c2, t2, r2, o2) \cup JudgeMachine(M, q2, o2) ELSE {}
      IN /\ cnt' = c2 /\ tcnt' = t2 /\ rsum' = r2 /\ Q' = q2 /\ obs' = o2
         /\ cur' = (IF okidx THEN ns ELSE 0)
+        /\ epcur' = epcur + (IF okidx THEN 1024 * M.R[s][a][ns] ELSE Ev.r2)
         /\ fail' = fail \cup {<<x, l>> : x \in f1}
         /\ drift' = drift \cup {<<"step", x, l>> : x \in d1} \cup {<<"mid", x, l>> : x \in d2}
   /\ l' = l + 1
-  /\ UNCHANGED <<iid, pc>>
+  /\ UNCHANGED <<iid, pc, epr>>
 
 \* end_of_episode: the table at this point is what a run with this many episodes returns
 TrEnd ==
@@ -262,12 +269,17 @@ TrEnd ==
          d2 == IF obs # <<>> THEN JudgeQ(M, cnt, tcnt, rsum, obs) ELSE {}
      IN drift' = drift \cup {<<"step", x, l>> : x \in d1} \cup {<<"epend", x, l>> : x \in d2}
   /\ cur' = 0 /\ l' = l + 1
+  /\ epr' = Append(epr, epcur) /\ epcur' = 0
   /\ UNCHANGED <<iid, pc, cnt, tcnt, rsum, Q, obs, fail>>
 
 \* the returned q_values and policy: every value clause of the statement is judged here
 TrFinal ==
   /\ pc = "trace" /\ l <= Len(M.ev) /\ Ev.k = "final"
   /\ LET f1 == JudgeQ(M, cnt, tcnt, rsum, Ev.q) \cup JudgePolicy(M, Ev.rk, Ev.pol) \cup JudgeExact(M, cnt, Ev)
+               \* the per-episode reward totals reported by the default listener (event_listener_results of the
+               \* same configuration run with EpisodeRewardEventListener; ern = 1 when present) are the totals of
+               \* the MDP's rewards along the episodes of this very history, one entry per episode
+               \cup (IF Ev.ern = 1 /\ Ev.er # epr THEN {"episode-rewards-not-of-this-run"} ELSE {})
          d1 == JudgeMachine(M, Q, Ev.q) \cup PolicyDrift(M, Ev.rk, Ev.pol)
                \cup (IF Ev.xc # cnt \/ Ev.xt # tcnt THEN {"exact-side-model-differs"} ELSE {})
                \cup (IF obs # <<>> /\ \E s \in St(M) : HasRow(M, obs, s) /\ HasRow(M, Ev.q, s) /\ obs[s] # Ev.q[s]
@@ -275,14 +287,14 @@ TrFinal ==
      IN /\ fail' = fail \cup {<<x, l>> : x \in f1}
         /\ drift' = drift \cup {<<"final", x, l>> : x \in d1}
   /\ obs' = Ev.q /\ pc' = "done" /\ l' = l + 1
-  /\ UNCHANGED <<iid, cur, cnt, tcnt, rsum, Q>>
+  /\ UNCHANGED <<iid, cur, cnt, tcnt, rsum, Q, epr, epcur>>
 
 \* the run was interrupted by the harness (it did not return): only the experienced steps are judged
 TrCut ==
   /\ pc = "trace" /\ l <= Len(M.ev) /\ Ev.k = "cut"
   /\ drift' = drift \cup {<<"final", "run-did-not-return", l>>}
   /\ pc' = "done" /\ l' = l + 1
-  /\ UNCHANGED <<iid, cur, cnt, tcnt, rsum, Q, obs, fail>>
+  /\ UNCHANGED <<iid, cur, cnt, tcnt, rsum, Q, obs, fail, epr, epcur>>
 
 Next == StartEpisode \/ Step \/ TrStep \/ TrEnd \/ TrFinal \/ TrCut
 Spec == Init /\ [][Next]_vars
